@@ -527,6 +527,8 @@ impl<T: Transport + 'static> SyncEngine<T> {
             self.checksum,
         );
         let mut tasks = Vec::with_capacity(source_files.len());
+        // destination symlinks standing where the source has a directory (see below)
+        let mut replaced_links: Vec<PathBuf> = Vec::new();
 
         for file in &source_files {
             // Skip files that are already completed (if resuming)
@@ -558,11 +560,34 @@ impl<T: Transport + 'static> SyncEngine<T> {
             {
                 task.action = SyncAction::Update;
             }
+
+            // Nor does a symlink at the destination path stand for a source directory (an
+            // earlier run placed it when the source entry was still a link): it is replaced
+            // by a real directory, never followed — so nothing of what the source has below
+            // it exists in the destination yet, whatever the probes saw through the link
+            if replaced_links
+                .iter()
+                .any(|link| task.dest_path.starts_with(link))
+            {
+                task.action = SyncAction::Create;
+            } else if file.is_dir
+                && matches!(
+                    self.transport.read_link(&task.dest_path).await,
+                    Ok(Some(_))
+                )
+            {
+                task.action = SyncAction::Update;
+                replaced_links.push(task.dest_path.clone());
+            }
             tasks.push(task);
         }
 
+        // The replacements come first and are completed before any other task is started:
+        // every other task below such a path must find the real directory
+        tasks.sort_by_key(|t| !replaced_links.contains(&t.dest_path));
+        let mut deletions_first = replaced_links.len();
+
         // Plan deletions if requested
-        let mut deletions_first = 0;
         if self.delete {
             let mut deletions = planner.plan_deletions(&source_files, destination);
             deletions.retain(|task| {
@@ -651,7 +676,7 @@ impl<T: Transport + 'static> SyncEngine<T> {
             let (mut first, rest): (Vec<_>, Vec<_>) = deletions
                 .into_iter()
                 .partition(|d| working_files.contains(&d.dest_path));
-            deletions_first = first.len();
+            deletions_first += first.len();
             first.append(&mut tasks);
             tasks = first;
             tasks.extend(rest);
